@@ -99,6 +99,11 @@ def _impl(tier, seed, search):
             L.raises('trinterp:range', lambda: b.trinterp(T0, T1, sbad), dict(s=sbad), 'trinterp must reject s outside [0,1]')
             L.raises('slerp:range', lambda: b.slerp(inputs.unitq(g), inputs.unitq(g), sbad), dict(s=sbad), 'slerp must reject s outside [0,1]')
             L.raises('UQ.interp:range', lambda: UnitQuaternion(inputs.unitq(g)).interp(sbad, UnitQuaternion(inputs.unitq(g))), dict(s=sbad), 'UnitQuaternion.interp must reject s outside [0,1]')
+            L.raises('UQ.interp(no dest):range', lambda: UnitQuaternion(inputs.unitq(g)).interp(sbad), dict(s=sbad), 'UnitQuaternion.interp(s) without dest must reject s outside [0,1]')
+            L.raises('UQ.interp(shortest):range', lambda: UnitQuaternion(inputs.unitq(g)).interp(sbad, UnitQuaternion(inputs.unitq(g)), shortest=True), dict(s=sbad), 'UnitQuaternion.interp(shortest) must reject s outside [0,1]')
+            L.raises('SO3.interp:range', lambda: SO3(T1[:3, :3], check=False).interp(sbad, start=SO3(T0[:3, :3], check=False)), dict(s=sbad), 'SO3.interp must reject s outside [0,1]')
+            L.raises('SE3.interp(no start):range', lambda: SE3(T1, check=False).interp(sbad), dict(s=sbad), 'SE3.interp(s) must reject s outside [0,1]')
+            L.raises('trinterp(None,T,s):range', lambda: b.trinterp(None, T1, sbad), dict(s=sbad), 'trinterp(None, T, s) must reject s outside [0,1]')
             L.raises('SE3.interp:range', lambda: SE3(T1, check=False).interp(sbad, start=SE3(T0, check=False)), dict(s=sbad), 'SE3.interp must reject s outside [0,1]')
         # ---- quaternion slerp ---------------------------------------------------------------------
         q0 = np.r_[math.cos(0.3), math.sin(0.3) * inputs.unit_axis(g)]
